@@ -99,3 +99,59 @@ Definition node_ok (raw : wreq) (n : capnode) : bool :=
 Definition ok (c : capcase) : bool :=
   forallb (node_ok (k_req c)) (k_nodes c)
   && (k_total c =? satsum (obs_caps c)).
+
+(* ---------- two plugins: cpumem + a second plugin answering from a table ---------- *)
+(* The second plugin of the manager reports [k2_other] (a Go map node ->
+   capacity info; possibly empty, possibly without some nodes) and its
+   CalculateDeploy accepts a count iff it is at most the capacity it holds for
+   the node (0 when it has none).  The manager merges the two answers in the
+   iteration order of a Go map: the model accepts either order. *)
+Record capcase2 := mkCapCase2 {
+  k2_base : Z; k2_maxshare : Z; k2_req : wreq;
+  k2_other : famap;                (* what the second plugin answers *)
+  k2_other_caps : list (string * Z); (* what its CalculateDeploy admits per node (absent = 0) *)
+  k2_nodes : list capnode;
+  k2_total : Z }.
+
+Fixpoint zlookup (k : string) (m : list (string * Z)) : Z :=
+  match m with [] => 0 | (k', v) :: t => if String.eqb k k' then v else zlookup k t end.
+
+Definition merged_two (a b : fndc) : list fndc :=
+  [finish fdiv (merge2 fadd fmul (weigh fmul a) b); finish fdiv (merge2 fadd fmul (weigh fmul b) a)].
+
+Definition node_agree2 (c : capcase2) (n : capnode) : bool :=
+  match wreq_validate (k2_req c) with
+  | inl _ => false
+  | inr req =>
+      existsb (fun cand =>
+        match cand with
+        | None => false
+        | Some ci =>
+            match (if 0 <? cap_capacity ci then Some (ndc_of_cap ci) else None), Merge.lookup (kn_name n) (k2_other c) with
+            | Some a, Some b => match kn_obs n with
+                                | Some o => existsb (fun m => ndc_eqb m o) (merged_two a b)
+                                | None => false
+                                end
+            | _, _ => match kn_obs n with None => true | Some _ => false end
+            end
+        end) (cap_candidates (k2_base c) (k2_maxshare c) req (kn_info n))
+      && forallb (fun p =>
+           existsb (fun order =>
+             match calculate_deploy (kn_info n) (k2_base c) (k2_maxshare c) (fst p) (k2_req c) order (default_fuel (kn_info n)) with
+             | Ok (inr _) => Bool.eqb (snd p) (fst p <=? zlookup (kn_name n) (k2_other_caps c))
+             | Ok (inl _) => negb (snd p)
+             | _ => false
+             end) (perms (numa_nodes (kn_info n)))) (kn_probes n)
+  end.
+
+Definition obs_caps2 (c : capcase2) : list Z :=
+  flat_map (fun n => match kn_obs n with Some o => [n_cap o] | None => [] end) (k2_nodes c).
+
+Definition agree2 (c : capcase2) : bool :=
+  forallb (node_agree2 c) (k2_nodes c) && (k2_total c =? total_of (obs_caps2 c)).
+
+(* the same reflection of C07 as with one plugin: the capacity the MANAGER
+   reports is the largest count Manager.Alloc accepts, zero capacity is not
+   offered, the total is the saturating sum *)
+Definition ok2 (c : capcase2) : bool :=
+  forallb (node_ok (k2_req c)) (k2_nodes c) && (k2_total c =? satsum (obs_caps2 c)).
